@@ -204,6 +204,7 @@ type FuncSpec struct {
 	Inline        bool // callers inline the body instead of using a contract
 	Witnesses     []string
 	Deterministic bool     // govc proves that the postconditions admit at most one result per input
+	ReportsAll    bool     // structural obligation: no loop of the function is left early (break/return inside the body)
 	Uses          []string // lemmas whose (universally quantified) statements are assumed in this function's proofs
 }
 
